@@ -264,9 +264,50 @@ static void scn_vector(spif_vector_t v, int n)
     }
     SPIF_VECTOR_DEL(v);
 }
+/* dup of an EMPTY container, dup of a filled one, everything deleted (seeded change C15-2:
+ * a zero-length items block owned only by the duplicate of an empty array) */
+static void scn_listdup(spif_list_t l, int n)
+{
+    int i;
+    char b[32];
+    spif_list_t d0 = SPIF_LIST_DUP(l), d1;
+    for (i = 0; i < n; i++) { sprintf(b, "item-%d", i); SPIF_LIST_APPEND(l, S(b)); }
+    d1 = SPIF_LIST_DUP(l);
+    if (!SPIF_LIST_ISNULL(d0)) SPIF_LIST_DEL(d0);
+    if (!SPIF_LIST_ISNULL(d1)) SPIF_LIST_DEL(d1);
+    SPIF_LIST_DEL(l);
+}
+static void scn_vecdup(spif_vector_t v, int n)
+{
+    int i;
+    char b[32];
+    spif_vector_t d0 = SPIF_VECTOR_DUP(v), d1;
+    for (i = 0; i < n; i++) { sprintf(b, "v-%d", i); SPIF_VECTOR_INSERT(v, S(b)); }
+    d1 = SPIF_VECTOR_DUP(v);
+    if (!SPIF_VECTOR_ISNULL(d0)) SPIF_VECTOR_DEL(d0);
+    if (!SPIF_VECTOR_ISNULL(d1)) SPIF_VECTOR_DEL(d1);
+    SPIF_VECTOR_DEL(v);
+}
+static void scn_mapdup(spif_map_t m, int n)
+{
+    int i;
+    char b[32];
+    spif_str_t k;
+    spif_map_t d0 = SPIF_MAP_DUP(m), d1;
+    for (i = 0; i < n; i++) { sprintf(b, "k-%d", i); k = S(b); SPIF_MAP_SET(m, k, k); spif_str_del(k); }
+    d1 = SPIF_MAP_DUP(m);
+    if (!SPIF_MAP_ISNULL(d0)) SPIF_MAP_DEL(d0);
+    if (!SPIF_MAP_ISNULL(d1)) SPIF_MAP_DEL(d1);
+    SPIF_MAP_DEL(m);
+}
 static int lv_scenario(const char *name, int n)
 {
     int i;
+    if (!strcmp(name, "adup")) { scn_listdup(SPIF_LIST_NEW(array), n); return 1; }
+    if (!strcmp(name, "ldup")) { scn_listdup(SPIF_LIST_NEW(linked_list), n); return 1; }
+    if (!strcmp(name, "ddup")) { scn_listdup(SPIF_LIST_NEW(dlinked_list), n); return 1; }
+    if (!strcmp(name, "avdup")) { scn_vecdup(SPIF_VECTOR_NEW(array), n); return 1; }
+    if (!strcmp(name, "amdup")) { scn_mapdup(SPIF_MAP_NEW(array), n); return 1; }
     if (!strcmp(name, "str")) {
         spif_str_t a = S("hello"), b, c;
         for (i = 0; i < n; i++) spif_str_append_from_ptr(a, (spif_charptr_t) " more text to make it grow");
